@@ -1044,7 +1044,37 @@ func (E *Engine) intrinsic(fr *Frame, st *State, name string, fn *ssa.Function, 
 				}
 			}
 		}
-		E.fail("Visited: no range loop over this map is active in %s", fr.fn)
+		// the map expression of the specification may be a differently written but equal term: if
+		// exactly one map iteration of this key sort is active, that is the one meant
+		var only *Iter
+		cnt := 0
+		for f := fr; f != nil; f = f.parent {
+			src := f
+			if f.invOf != nil {
+				src = f.invOf
+			}
+			for _, it := range src.iters {
+				if it.isMap && it.ks == k.sort && it != only {
+					only = it
+					cnt++
+				}
+			}
+		}
+		if cnt == 1 {
+			return tb.Select(E.get(st, only.visKey, ArraySort(only.ks, SBool)), k)
+		}
+		dbg := ""
+		for f := fr; f != nil; f = f.parent {
+			src := f
+			if f.invOf != nil {
+				src = f.invOf
+			}
+			dbg += fmt.Sprintf(" [%s invOf=%v iters=%d]", shortFn(f.fn), f.invOf != nil, len(src.iters))
+			for _, it := range src.iters {
+				dbg += fmt.Sprintf("{map=%v ks=%s}", it.isMap, it.ks)
+			}
+		}
+		E.fail("Visited: no range loop over this map (key sort %s) is active in %s:%s", k.sort, fr.fn, dbg)
 	case "Same":
 		return tb.Eq(args[0].(*Term), args[1].(*Term))
 	case "Fresh":
